@@ -20,7 +20,11 @@ from types import SimpleNamespace
 import bamgen
 
 DEN = 24
-CONTIGS = [('chrA', 240), ('chrB', 120)]
+# contig-name sets; in the second one every name is a substring / prefix of another (chr1 < chr11, chr1 < chr1_alt):
+# name comparisons done with `in`, startswith or endswith instead of equality show up there
+CONTIG_SETS = [[('chrA', 240), ('chrB', 120)],
+               [('chr1', 240), ('chr11', 120), ('chr1_alt', 90)],
+               [('chr11', 200), ('chr1', 150)]]
 SWITCHES = ['r1only', 'r2only', 'filterMP', 'proper', 'no_indels', 'no_softclips', 'filterXA', 'dedup', 'nodivide', 'divmm',
             'minMQ', 'max_edits', 'blacklist']
 CIGARS = ['10M', '10M', '10M', '6M', '4M1I5M', '5M2D5M', '2S8M', '8M2S', '3S3M1I3M', '2S4M3D4M', '30M', '60M']
@@ -45,15 +49,16 @@ def cigar_lengths(c):
 # abstract description of a BAM
 
 def gen_scene(rng):
-    """Blacklist intervals and BED regions of one BAM: reads are placed relative to their boundaries."""
+    """Contigs, blacklist intervals and BED regions of one BAM: reads are placed relative to their boundaries."""
+    CONTIGS = rng.choice(CONTIG_SETS)
     bl = []
     for _ in range(rng.choice([1, 1, 2])):
         contig, ln = rng.choice(CONTIGS)
         s = rng.randrange(20, ln - 60)
         bl.append({'contig': contig, 'start': s, 'end': s + rng.choice([1, 5, 10, 20, 40])})
     bed = []
-    for k in range(rng.choice([1, 2, 3])):
-        contig, ln = rng.choice(CONTIGS)
+    for k in range(rng.choice([1, 2, 3, 4])):
+        contig, ln = CONTIGS[k % len(CONTIGS)] if k < len(CONTIGS) and rng.random() < 0.7 else rng.choice(CONTIGS)
         s = rng.randrange(0, ln - 30)
         bed.append({'contig': contig, 'start': s, 'end': min(ln, s + rng.choice([10, 30, 80])), 'name': 'reg%d' % k})
     if rng.random() < 0.5 and bed:   # an overlapping / adjacent region
@@ -61,7 +66,7 @@ def gen_scene(rng):
         bed.append({'contig': b['contig'], 'start': rng.choice([b['end'], b['end'] - 5, b['start']]),
                     'end': min(dict(CONTIGS)[b['contig']], b['end'] + 25), 'name': 'regX'})
     bed = [b for b in bed if b['start'] < b['end']]
-    return bl, bed
+    return bl, bed, CONTIGS
 
 
 def gen_tags(rng, d):
@@ -87,7 +92,7 @@ def gen_tags(rng, d):
     d['dup'] = rng.random() < 0.15
 
 
-def place(rng, d, anchors, contig=None):
+def place(rng, d, anchors, CONTIGS, contig=None):
     """Mapped record: CIGAR, position relative to an anchor (blacklist / BED / bin boundary)."""
     cname, ln = contig if contig else rng.choice(CONTIGS)
     cigar = rng.choice(CIGARS)
@@ -112,7 +117,7 @@ def unmapped_rec(d, contig='', start=-1):
 
 
 def gen_bam(rng, scene):
-    bl, bed = scene
+    bl, bed, CONTIGS = scene
     anchors = [(b['contig'], b[k]) for b in bl + bl + bl + bed for k in ('start', 'end')]
     anchors += [(c, m) for c, ln in CONTIGS for m in (0, 50, 100, ln)]
     reads = []
@@ -125,7 +130,7 @@ def gen_bam(rng, scene):
         if kind == 'single':
             d = dict(base)
             gen_tags(rng, d)
-            place(rng, d, anchors)
+            place(rng, d, anchors, CONTIGS)
             if rng.random() < 0.05:
                 d['mate'] = 1           # flagged read 1 but not paired (legal flag combination)
             reads.append(d)
@@ -147,9 +152,9 @@ def gen_bam(rng, scene):
                 d1['mate_unmapped'] = d2['mate_unmapped'] = True
             else:
                 contig = rng.choice(CONTIGS)
-                place(rng, d1, anchors, contig)
+                place(rng, d1, anchors, CONTIGS, contig)
                 if kind == 'pair':
-                    place(rng, d2, anchors, contig if rng.random() < 0.85 else None)
+                    place(rng, d2, anchors, CONTIGS, contig if rng.random() < 0.85 else None)
                     proper = rng.random() < 0.7
                     d1['proper'] = d2['proper'] = proper
                 else:
@@ -174,7 +179,8 @@ def to_segment(header, d):
     if d['mp']:
         tags['mp'] = d['mp']
     if d['hasxa']:   # bwa format: chr,pos,CIGAR,NM; per alternative hit (each one terminated by ';')
-        tags['XA'] = ''.join('%s,+%d,10M,1;' % ('chrB' if x == 'nonalt' else 'chrUn_KI270_alt', 100 + 7 * i)
+        tags['XA'] = ''.join('%s,+%d,10M,1;' % (('chrB', 'chr11', 'chr1_alternative')[i % 3] if x == 'nonalt'
+                                                else ('chrUn_KI270_alt', 'chr1_alt')[i % 2], 100 + 7 * i)
                              for i, x in enumerate(d['xa']))
     for k, v in d['feats'].items():
         tags[k] = ','.join(v)
@@ -195,7 +201,7 @@ def base_opts(scene):
             'filterXA': False, 'dedup': False, 'nodivide': False, 'divmm': False, 'split': False, 'keep': False,
             'minMQ': 0, 'max_edits': -1, 'blacklist': [], 'byvalue': '', 'mode': 'joined', 'tags': ['chrom'],
             'bin': 0, 'bintag': 'DS', 'sliding': 0, 'bed': [], 'usebed': False, 'contig': '', 'delim': ',',
-            'reflen': dict(CONTIGS), 'nonames': False}
+            'reflen': dict(scene[2]), 'nonames': False}
 
 
 def switch_on(rng, o, sw, scene):
@@ -234,8 +240,8 @@ def set_keymode(rng, o, km, scene):
             o['byvalue'] = 'XV'
     else:
         raise ValueError(km)
-    if rng.random() < 0.25:
-        o['contig'] = rng.choice(['chrA', 'chrB'])
+    if rng.random() < (0.5 if o['usebed'] else 0.25):
+        o['contig'] = rng.choice(scene[2])[0]
     o['nonames'] = rng.random() < 0.2
 
 
@@ -315,8 +321,8 @@ def run_one(ct, o, bam, tmp):
     return raised, rows
 
 
-def write_bam(path, reads):
-    header = bamgen.make_header(CONTIGS)
+def write_bam(path, reads, contigs):
+    header = bamgen.make_header([tuple(c) for c in contigs])
     bamgen.write_bam(path, header, [to_segment(header, d) for d in reads])
 
 
@@ -332,7 +338,7 @@ def main():
         if tier == 'replay':
             with open(sys.argv[3]) as rf:
                 case = json.load(rf)['case']['event']
-            write_bam(bam, case['bam']['reads'])
+            write_bam(bam, case['bam']['reads'], case['bam'].get('contigs', CONTIG_SETS[0]))
             emit(case['bam'])
             raised, rows = run_one(ct, case['opts'], bam, tmp)
             emit({'ev': 'table', 'tid': case['tid'], 'opts': case['opts'], 'raised': raised, 'table': rows})
@@ -349,9 +355,9 @@ def main():
             for b in range(nbam):
                 scene = gen_scene(rng)
                 reads = gen_bam(rng, scene)
-                write_bam(bam, reads)
+                write_bam(bam, reads, scene[2])
                 tid += 1
-                emit({'ev': 'bam', 'tid': tid, 'seed': seed, 'bam_index': b, 'reads': reads})
+                emit({'ev': 'bam', 'tid': tid, 'seed': seed, 'bam_index': b, 'contigs': [list(c) for c in scene[2]], 'reads': reads})
                 for o in gen_optsets(rng, scene, nopt, pair_cycle, km_cycle):
                     raised, rows = run_one(ct, o, bam, tmp)
                     tid += 1
